@@ -43,6 +43,11 @@ pub const STALL_SECS: u64 = 10;
 
 /// (all asleep, total CPU ticks) of the processes in process group `pgid`.
 fn group_activity(pgid: i32) -> Option<(bool, u64)> {
+    group_activity_ex(pgid, true)
+}
+
+/// `count_zombies`: whether terminated but unreaped members count as members.
+fn group_activity_ex(pgid: i32, count_zombies: bool) -> Option<(bool, u64)> {
     let mut all_asleep = true;
     let mut ticks = 0u64;
     let mut seen = false;
@@ -54,6 +59,9 @@ fn group_activity(pgid: i32) -> Option<(bool, u64)> {
         let Some(rest) = stat.rfind(')').map(|i| &stat[i + 1..]) else { continue };
         let f: Vec<&str> = rest.split_whitespace().collect();
         if f.len() < 13 || f[2].parse::<i32>().ok() != Some(pgid) {
+            continue;
+        }
+        if !count_zombies && matches!(f[0], "Z" | "X") {
             continue;
         }
         seen = true;
@@ -71,9 +79,20 @@ fn wait_or_stall(child: &mut std::process::Child) -> Option<std::process::ExitSt
     let pgid = child.id() as i32;
     let start = std::time::Instant::now();
     let mut quiet_since: Option<(std::time::Instant, u64)> = None;
+    let mut leader: Option<std::process::ExitStatus> = None;
     loop {
-        if let Ok(Some(st)) = child.try_wait() {
-            return Some(st);
+        if leader.is_none() {
+            if let Ok(Some(st)) = child.try_wait() {
+                leader = Some(st);
+            }
+        }
+        if let Some(st) = leader {
+            // The shell itself has ended; processes it started (an asynchronous list, a subshell
+            // that killed its parent) may still be writing: the run is over when the whole
+            // process group is gone, so that output and files are read only when complete.
+            if group_activity_ex(pgid, false).is_none() {
+                return Some(st);
+            }
         }
         let el = start.elapsed();
         std::thread::sleep(std::time::Duration::from_millis(if el.as_millis() < 200 { 2 } else { 50 }));
@@ -86,6 +105,11 @@ fn wait_or_stall(child: &mut std::process::Child) -> Option<std::process::ExitSt
                     if t0.elapsed().as_secs() >= STALL_SECS {
                         unsafe { libc::kill(-pgid, libc::SIGKILL) };
                         let _ = child.wait();
+                        if leader.is_some() {
+                            // only left-over descendants were stuck (e.g. a background reader of
+                            // an inherited descriptor): the shell's own result stands
+                            return leader;
+                        }
                         return None;
                     }
                 }
